@@ -147,7 +147,10 @@ class ServerBase(object):
             ctx.out_object = (None,)
 
         elif isinstance(ctx.out_object, Ignored):
-            ctx.out_object = ()
+            # the method declares more than one return value: send them all
+            # as None, like the single return value above.
+            ctx.out_object = (None,) * \
+                                 len(ctx.descriptor.out_message._type_info)
 
     def convert_pull_to_push(self, ctx, gen):
         oobj, = ctx.out_object
